@@ -106,6 +106,23 @@ constexpr parser nest(
     )
 );
 
+// statements with a right-recursive error rule and a nullable list: several recoveries can be alive on the stack at once, which is what fills the fixed
+// stacks of a cstring_buffer<N> parse to the last slot (for the `cstr` target)
+constexpr nterm<int> c_stmt("stmt"), c_stmts("stmts");
+constexpr parser rec(
+    c_stmt,
+    terms('i', '(', ')', '{', '}', 'x', ';'),
+    nterms(c_stmt, c_stmts),
+    rules(
+        c_stmt('x', ';') >= val(1),
+        c_stmt('i', '(', 'x', ')', c_stmt) >= [](skip, skip, skip, skip, int s) { return (2 * s + 1) % 100003; },
+        c_stmt('i', '(', error, ')', c_stmt) >= [](skip, skip, skip, skip, int s) { return (3 * s + 2) % 100003; },
+        c_stmt('{', c_stmts, '}') >= [](skip, int s, skip) { return (s + 7) % 100003; },
+        c_stmts() >= val(0),
+        c_stmts(c_stmts, c_stmt) >= [](int a, int b) { return (5 * a + b) % 100003; }
+    )
+);
+
 // standalone matchers
 constexpr char m0[] = "[1-9][0-9]*"; constexpr char m1[] = "(a|b)*"; constexpr char m2[] = "a|bc*"; constexpr char m3[] = "[a-zA-Z_][a-zA-Z_0-9]*";
 constexpr char m4[] = "a{5}"; constexpr char m5[] = "[^a-z]"; constexpr char m6[] = "."; constexpr char m7[] = R"(\x00|\xff)"; constexpr char m8[] = "0|[1-9][0-9]*";
@@ -156,6 +173,18 @@ static Out run_one(const Parser& p, const Buffer& b, parse_options opts)
     catch (const std::exception& e) { o.threw = true; o.exc = e.what(); }
     o.err = os.str();
     return o;
+}
+
+template<size_t N> static Out cstr_run_n(const std::string& text, parse_options opts)
+{
+    // the array is exactly N + 1 bytes on the heap so that reads past it are visible to ASan
+    std::unique_ptr<char[]> arr(new char[N + 1]); for (size_t i = 0; i < N; ++i) arr[i] = text[i]; arr[N] = 0;
+    return run_one(P::rec, cstring_buffer<N + 1>(*reinterpret_cast<const char(*)[N + 1]>(arr.get())), opts);
+}
+template<size_t N> static Out cstr_run(const std::string& text, parse_options opts)
+{
+    if constexpr (N > 28) { (void)text; (void)opts; return Out{}; }
+    else { if (text.size() == N || (N == 1 && text.empty())) return text.empty() ? run_one(P::rec, cstring_buffer<1>(""), opts) : cstr_run_n<N>(text, opts); return cstr_run<N + 1>(text, opts); }
 }
 
 template<class Parser>
@@ -322,6 +351,31 @@ extern "C" int LLVMFuzzerTestOneInput(const uint8_t* data, size_t size)
         if (r.max_depth >= 1024) st.labels["nesting-depth>=1024"]++; else if (r.max_depth >= 341) st.labels["nesting-depth>=341"]++;
         if (a.has && r.max_depth >= 341) st.labels["accepted-deep"]++;
         if (text.size() > 65536) st.labels[a.has ? "accepted-longer-than-64KiB" : "longer-than-64KiB"]++;
+    }
+    else if (t == "cstr")
+    {
+        // bytes -> a short text over the grammar's alphabet; parsed through string_buffer (growing stacks) and through cstring_buffer<N> (fixed stacks of
+        // N + EmptyRulesCount + 1 entries). A fixed stack that is too small must end the parse with the capacity exception (a clean failure; that inputs in the
+        // language can run into it is known finding F11), never with a write past the stack (UBSan/ASan) or a different result.
+        std::string text; for (size_t i = 1; i < size && text.size() < 28; ++i) text += "i(){}x; i(x"[data[i] % 11];
+        parse_options opts; opts.set_skip_whitespace(!(sel & 1));
+        Out a = run_one(P::rec, string_buffer(std::string(text)), opts);
+        Out c = cstr_run<1>(text, opts);
+        FStats& st = fstats();
+        if (c.threw)
+        {
+            if (c.exc.find("out of range") == std::string::npos) violation("cstring_buffer parse ended with an exception other than the capacity exception: " + c.exc, text);
+            st.labels["cstring-capacity-exception"]++;
+        }
+        else
+        {
+            if (a.threw) violation("string_buffer parse threw: " + a.exc, text);
+            if (a.has != c.has || (a.has && a.value != c.value) || a.err != c.err) violation("cstring_buffer and string_buffer parses of the same text differ (result or error stream)", text);
+            if (!a.err.empty() && a.has) st.labels["recovered"]++;
+        }
+        if (std::count(a.err.begin(), a.err.end(), '\n') >= 2) st.labels["several-syntax-errors"]++;
+        // non-trivial = the text has >= 4 terms and was either accepted or reported a syntax error beyond the second column
+        if (text.size() >= 4 && st.nontrivial.size() < 3000000 && st.nontrivial.insert(eng::hcomb(eng::hstr(text), sel & 1)).second) { st.labels[c.threw ? "nt-capacity" : a.has ? "nt-accepted" : "nt-rejected"]++; if (st.samples.size() < 4) st.samples.push_back(text); }
     }
     else if (t == "match")
     {
